@@ -332,9 +332,15 @@ fn run_check(args: &[String]) -> i32 {
                 if ctx.model.available() && !diff_cases.is_empty() {
                     // the correspondence broke and the model still runs: search around the inputs on which implementation
                     // and model differ, with the model in the loop, so that a failure where they differ is recognised as new
-                    let mut cases = gen::around(&mut rng2, &diff_cases, 60_000);
-                    cases.extend(deep.cases.iter().cloned());
-                    check::run_cases(&ctx, &cases, &*deep.judge, false)
+                    let pipeline_diffs: Vec<Case> = diff_cases.iter().filter(|c| !unit::is_unit(c)).cloned().collect();
+                    let cases = gen::around(&mut rng2, &pipeline_diffs, 60_000);
+                    let mut out = check::run_cases(&ctx, &cases, &*deep.judge, false);
+                    if unit::UNIT_PROPS.contains(&prop.as_str()) {
+                        out.absorb(unit::run_unit_around(&ctx, &diff_cases));
+                    }
+                    // the wide, deep part of the search runs against the oracle alone (the model in the loop is slow)
+                    out.absorb(check::run_cases(&quiet, &deep.cases, &*deep.judge, false));
+                    out
                 } else {
                     check::run_cases(&quiet, &deep.cases, &*deep.judge, false)
                 }
